@@ -22,7 +22,7 @@ from checks import common
 PROPERTY = "C05"
 LEVEL = "exploration"
 MODES = ["O0", "O1"]
-TIERS = {"quick": {"runs": 280, "wall": 55}, "thorough": {"runs": 6000, "wall": 1500}}
+TIERS = {"quick": {"runs": 220, "wall": 55}, "thorough": {"runs": 6000, "wall": 1500}}
 RULE = ("plan = one seeded well-formed PEL (2..10 sections, <= ~2 KiB) + fault list: every proper prefix, single-"
         "byte corruptions (structure-biased sample; every offset x 4 values in 'full' plans), garbage strings, "
         "prefixes of corrupted copies; each faulted file goes through `peltool -f` (in-process main) and parsePEL, "
